@@ -336,24 +336,24 @@ def wStaleInit : List (Op Int) :=
 theorem C08_witness_stale_init (c : Cfg) (h : c.initialValueResetsCache = false) : ¬ C08_seq c := by
   intro hf
   have := hf Int intOps wInit rfl wStaleInit (by decide) 1 2 20 20 10 28
-  obtain ⟨i, a, f⟩ := c
+  obtain ⟨i, a, f, o⟩ := c
   simp only at h; subst h
-  cases a <;> cases f <;> exact absurd (this (by decide) (by decide)) (by decide)
+  cases a <;> cases f <;> cases o <;> exact absurd (this (by decide) (by decide)) (by decide)
 
-/-- `c = 2 (converter 1); k = c*3 (converter 2); k(t_0); model.add_equation('c', lambda t: 5)` -/
+/-- `c = 1+1 (converter 1); k = c*3 (converter 2); k(t_0); model.add_equation('c', lambda t: 5)` -/
 def wStaleAdd : List (Op Int) :=
-  [.setEq 1 (.lit 2), .setEq 2 (.bin 2 (.ref 1) (.lit 3)), .eval 2 0 20, .addEq 1 (.lit 5)]
+  [.setEq 1 (.bin 0 (.lit 1) (.lit 1)), .setEq 2 (.bin 2 (.ref 1) (.lit 3)), .eval 2 0 20, .addEq 1 (.lit 5)]
 
 theorem C08_witness_stale_add (c : Cfg) (h : c.addEquationResetsCache = false) : ¬ C08_seq c := by
   intro hf
   have := hf Int intOps wInit rfl wStaleAdd (by decide) 2 0 20 20 6 15
-  obtain ⟨i, a, f⟩ := c
+  obtain ⟨i, a, f, o⟩ := c
   simp only at h; subst h
-  cases i <;> cases f <;> exact absurd (this (by decide) (by decide)) (by decide)
+  cases i <;> cases f <;> cases o <;> exact absurd (this (by decide) (by decide)) (by decide)
 
 /-- Non-vacuity of part (a): a history with every kind of operation whose final query is defined and
 equals the fresh value (stock 0 with init 10, inflow 2·dt per step; k = 2·s ⇒ k(t_2) = 28). -/
-example : query intOps (run ⟨true, true, true⟩ intOps wInit
+example : query intOps (run ⟨true, true, true, true⟩ intOps wInit
     (wStaleInit ++ [.eval 1 2 20, .reset, .addEq 3 (.lit 7), .eval 1 1 20])) 1 2 20 = some 28 := by decide
 
 
@@ -570,15 +570,15 @@ shows the same on the real code: `model.points` is a plain dict) -/
 /-- `k = LOOKUP(3, "p0")`; `k(t_0)`; `model.points["p0"] = <other table>`; `k(t_0)` again: the memo answers 3, a
 fresh model 103. -/
 theorem points_unsettled_stale :
-    query intOps (run ⟨true, true, true⟩ intOps wInit
+    query intOps (run ⟨true, true, true, true⟩ intOps wInit
         [.setEq 1 (.lookup 0 (.lit 3)), .eval 1 0 20, .setPoints 0 (fun x => x + 100)]) 1 0 20 = some 3 ∧
-    query intOps { run ⟨true, true, true⟩ intOps wInit
+    query intOps { run ⟨true, true, true, true⟩ intOps wInit
         [.setEq 1 (.lookup 0 (.lit 3)), .eval 1 0 20, .setPoints 0 (fun x => x + 100)] with memo := [] } 1 0 20
       = some 103 := by decide
 
 /-- … and settled by a `reset_cache` it is fresh again (non-vacuity of the points clause of `C08_seq`). -/
 example : settled ([.setEq 1 (.lookup 0 (.lit 3)), .eval 1 0 20, .setPoints 0 (fun x => x + 100), .reset] : List (Op Int)) = true ∧
-    query intOps (run ⟨true, true, true⟩ intOps wInit
+    query intOps (run ⟨true, true, true, true⟩ intOps wInit
         [.setEq 1 (.lookup 0 (.lit 3)), .eval 1 0 20, .setPoints 0 (fun x => x + 100), .reset]) 1 0 20 = some 103 := by
   decide
 
@@ -728,20 +728,20 @@ theorem clearSel_all {α : Type} (m : Memo α) : clearSel m (fun _ => true) = []
   simp [clearSel]
 
 theorem stepSel_all_eq_step {α : Type} (c : Cfg) (hi : c.initialValueResetsCache = true)
-    (ha : c.addEquationResetsCache = true) (ops : Ops α) (s : St α) (op : Op α) :
+    (ha : c.addEquationResetsCache = true) (ho : c.operandsThroughMemo = true) (ops : Ops α) (s : St α) (op : Op α) :
     stepSel selAll ops s op = step c ops s op := by
   have hall : ∀ n, clearSel s.memo (selAll s n) = [] := fun n => clearSel_all s.memo
-  cases op <;> simp [stepSel, step, hall, hi, ha]
+  cases op <;> simp [stepSel, step, installed, hall, hi, ha, ho]
 
 theorem runSel_all_eq_run {α : Type} (c : Cfg) (hi : c.initialValueResetsCache = true)
-    (ha : c.addEquationResetsCache = true) (ops : Ops α) (h : List (Op α)) :
+    (ha : c.addEquationResetsCache = true) (ho : c.operandsThroughMemo = true) (ops : Ops α) (h : List (Op α)) :
     ∀ s : St α, runSel selAll ops s h = run c ops s h := by
   induction h with
   | nil => intro s; rfl
   | cons op rest ih =>
       intro s
       simp only [runSel, run, List.foldl_cons] at ih ⊢
-      rw [stepSel_all_eq_step c hi ha]; exact ih _
+      rw [stepSel_all_eq_step c hi ha ho]; exact ih _
 
 /-! ### an incomplete users relation is unsound (the `\w+` name matcher) -/
 
@@ -1067,31 +1067,81 @@ def wSched : List Nat := [0, 0, 1, 1, 0, 1, 0, 1]
 theorem C08_witness_race (c : Cfg) (h : c.memoizeFirstStoreWins = false) : ¬ C08_conc c := by
   intro hf
   have := hf Int wSys [] [[(0, 0)], [(0, 0)]] wSched
-  obtain ⟨i, a, f⟩ := c
+  obtain ⟨i, a, f, o⟩ := c
   simp only at h; subst h
-  cases i <;> cases a <;> exact absurd this (by decide)
+  cases i <;> cases a <;> cases o <;> exact absurd this (by decide)
 
 /-- Non-vacuity of part (b): the same racing schedule under the first-store rule — both workers
 finish and both report the value stored first (0); and a 2-level deterministic system finishes. -/
-example : (exec ⟨true, true, true⟩ wSys (initC [] [[(0, 0)], [(0, 0)]]) wSched).log
+example : (exec ⟨true, true, true, true⟩ wSys (initC [] [[(0, 0)], [(0, 0)]]) wSched).log
     = [(none, (0, 0), 0), (none, (0, 0), 0)] := by decide
+
+/-! ## (wave 6) definitions are read through the memo, never copied
+
+`C08_seq` compares the edited model with "the same bodies, empty memo".  That is the freshly built model only if
+the installed function of an element IS its current definition — which fails when the term generator copies the
+VALUE an operand has at definition time into the function string: a later edit of the operand resets the memo, the
+recomputation uses the copied number, and even a cache-free evaluation of the installed bodies is stale against a
+model built from the final definitions.  The criterion `memoInv_clearSel` (and `Reach`) speak about the installed
+bodies, so they need the same fact to mean what they say about definitions. -/
+
+/-- **the installed function of an element is built from its definition alone**: after `element.equation = e` the
+function is `build … (some e)`, whatever the other elements currently are. -/
+def C08_defs (c : Cfg) : Prop :=
+  ∀ (α : Type) (ops : Ops α) (s : St α) (n : Nat) (e : Expr α),
+    (step c ops s (.setEq n e)).body n = build s.dt (s.kind n) n (s.init n) (some e)
+
+theorem C08_defs_of_fact (c : Cfg) (h : c.operandsThroughMemo = true) : C08_defs c := by
+  intro α ops s n e
+  simp [step, installed, h, updFn]
+
+/-- with the fact, what a model built from the final definitions yields is what `C08_seq` calls fresh: the body of
+every element defined through a setter is `build` of its current equation and initial value. -/
+theorem body_is_definition (c : Cfg) (h : c.operandsThroughMemo = true) {α : Type} (ops : Ops α) (s : St α)
+    (n : Nat) (e : Expr α) :
+    (step c ops s (.setEq n e)).body n = build s.dt (s.kind n) n ((step c ops s (.setEq n e)).init n)
+      ((step c ops s (.setEq n e)).eqn n) := by
+  simp [step, installed, h, updFn]
+
+/-- **definition-time copy**: constant `c = 2` (element 1), `k = c * 3` (element 2) defined while `c` is 2: the
+installed function of `k` is `2 * 3` — evaluated with every operand answering 7 it yields 6, the definition 21. -/
+theorem C08_witness_baked (c : Cfg) (h : c.operandsThroughMemo = false) : ¬ C08_defs c := by
+  intro hd
+  have h1 := hd Int intOps (run c intOps wInit [.setEq 1 (.lit 2)]) 2 (.bin 2 (.ref 1) (.lit 3))
+  have h2 := congrArg (fun b => (evalE intOps (fun m _ => (m, some (7 : Int))) b 0 []).2) h1
+  obtain ⟨i, a, f, o⟩ := c
+  simp only at h; subst h
+  revert h2
+  cases i <;> cases a <;> cases f <;> decide
+
+/-- … and the edited model is then stale against a model built from the final definitions although every memo was
+reset: `c = 2; k = c*3; c = 5; k(t_0)` answers 6; defining in the order `c = 5; k = c*3` (the final definitions) 15. -/
+theorem baked_is_stale :
+    query intOps (run ⟨true, true, true, false⟩ intOps wInit
+      [.setEq 1 (.lit 2), .setEq 2 (.bin 2 (.ref 1) (.lit 3)), .setEq 1 (.lit 5)]) 2 0 20 = some 6 ∧
+    query intOps (run ⟨true, true, true, true⟩ intOps wInit
+      [.setEq 1 (.lit 2), .setEq 2 (.bin 2 (.ref 1) (.lit 3)), .setEq 1 (.lit 5)]) 2 0 20 = some 15 := by decide
 
 /-! ## The full property -/
 
 /-- never stale (partial correctness, `C08_seq`) ∧ the edited model terminates whenever the fresh one does, with
 the same value (`C08_term`, wave 2) ∧ never ambiguous (`C08_conc`). -/
-def C08_full (c : Cfg) : Prop := C08_seq c ∧ C08_term c ∧ C08_conc c
+def C08_full (c : Cfg) : Prop := C08_seq c ∧ C08_term c ∧ C08_conc c ∧ C08_defs c
 
 theorem C08_full_of_good (c : Cfg) (h : c.good = true) : C08_full c := by
   simp only [Cfg.good, Bool.and_eq_true] at h
-  exact ⟨C08_fresh c h.1.1 h.1.2, C08_fresh_terminates c h.1.1 h.1.2, C08_stochastic_threads c h.2⟩
+  exact ⟨C08_fresh c h.1.1.1 h.1.1.2, C08_fresh_terminates c h.1.1.1 h.1.1.2, C08_stochastic_threads c h.1.2,
+    C08_defs_of_fact c h.2⟩
+
+theorem C08_witness_baked_full (c : Cfg) (h : c.operandsThroughMemo = false) : ¬ C08_full c :=
+  fun hf => C08_witness_baked c h hf.2.2.2
 
 theorem C08_witness_stale_init_full (c : Cfg) (h : c.initialValueResetsCache = false) : ¬ C08_full c :=
   fun hf => C08_witness_stale_init c h hf.1
 theorem C08_witness_stale_add_full (c : Cfg) (h : c.addEquationResetsCache = false) : ¬ C08_full c :=
   fun hf => C08_witness_stale_add c h hf.1
 theorem C08_witness_race_full (c : Cfg) (h : c.memoizeFirstStoreWins = false) : ¬ C08_full c :=
-  fun hf => C08_witness_race c h hf.2.2
+  fun hf => C08_witness_race c h hf.2.2.1
 
 #print axioms C08_full_of_good
 #print axioms C08_fresh
@@ -1115,5 +1165,8 @@ theorem C08_witness_race_full (c : Cfg) (h : c.memoizeFirstStoreWins = false) : 
 #print axioms C08_witness_stale_init_full
 #print axioms C08_witness_stale_add_full
 #print axioms C08_witness_race_full
+#print axioms C08_defs_of_fact
+#print axioms C08_witness_baked_full
+#print axioms baked_is_stale
 
 end Bptk.C08
